@@ -71,17 +71,20 @@ CHECKS["C01"] = dict(
     design="§6 C01")
 
 CHECKS["C03"] = dict(
-    technique="Coq proof that every rescaling code path equals plain pruning in exact arithmetic (any positive scalers, any tree) + sticky-flag induction; the proved interval model is the extended-range reference for a sweep through the subnormal band with histories (floating-point clause decided by the sweep only)",
+    technique="Coq proof that every rescaling code path equals plain pruning in exact arithmetic (any positive scalers, any tree) + sticky-flag induction; the rescaled and 'safe' loops of the code regenerated from source (update numerator, scaler, stored quotient, rescaling condition, returned expression) and proved to use the plain update and to weight both terms; the proved interval model is the extended-range reference for a sweep through the subnormal band with histories (floating-point clause decided by the sweep only)",
     text="Theorems C03_rescaled_eq_plain (for ANY positive per-node scalers, hence the rescaled, the partially "
-         "rescaled 'safe' and the tip-state variants, any tree/categories) and C03_flag_sticky / C03_flag_monotone "
-         "(prop/C03.v). They make the interval run of the plain model a legitimate extended-range reference. The "
-         "clause about doubles (finite and accurate to 1e-8 when site likelihoods are subnormal or underflow) is a "
-         "statement about IEEE arithmetic: it is decided by the sweep only (560/640-taxon caterpillar, balanced and random "
-         "trees, branch scale bisected into every part of the band [5e-324, 2.2e-308] and beyond; fresh models, "
-         "up-and-down histories on one model with the flag observed, batches mixing regimes).",
-    note="Trusted: Coq kernel; hand-written models M_like.v/M_rescale.v; oracle transition matrices from p_t; the "
+         "rescaled 'safe' and the tip-state variants, any tree/categories), C03_flag_sticky / C03_flag_monotone, and — over "
+         "definitions regenerated by translator T8 from calculate_treelikelihood_discrete_rescaled / _safe on every run — "
+         "C03_rescaled_loops_use_the_plain_update and C03_rescaled_returned_expression (sum over sites of weight x (ln root "
+         "term + sum of ln scalers)) (prop/C03.v). They make the interval run of the plain model a legitimate extended-range "
+         "reference. The clause about doubles (finite and accurate to 1e-8 when site likelihoods are subnormal or underflow) "
+         "is a statement about IEEE arithmetic: it is decided by the sweep only (560/640-taxon caterpillar, balanced and "
+         "random trees, tip partials and tip states, a repeated column, branch scale bisected into every part of the band "
+         "[5e-324, 2.2e-308] and beyond; fresh models, up-and-down histories on one model with the flag observed, batches "
+         "mixing regimes and evaluated again after the switch, alignments mixing conserved and random columns).",
+    note="Trusted: Coq kernel; hand-written models M_like.v/M_rescale.v; T8 translator; oracle transition matrices from p_t; the "
          "floating-point accuracy clause is NOT proved (no Flocq-level analysis of batched pruning): exploration only, "
-         "stated here on purpose.",
+         "stated here on purpose; the rescaled tip-STATE loop is not regenerated (model + sweep only).",
     design="§6 C03")
 
 CHECKS["C02"] = dict(
